@@ -174,7 +174,7 @@ for c in cases:
             o['pandas'] = {'err': type(e).__name__ + ': ' + str(e)[:120]}
     out.append(o)
 import shutil; shutil.rmtree(d, ignore_errors=True)
-print(json.dumps(out))
+print(json.dumps(out, default=repr))
 '''
 
 
@@ -315,9 +315,16 @@ def run(res, tier, seed):
     js_leg(res, random.Random(seed * 31 + 8), 1500 if tier == 'quick' else 20000)
     res.count('csv_checked', sum(1 for c in cases if c['csv']))
     res.count('pandas_checked', sum(1 for c in cases if c['pandas']))
+    # how an item's TEXT becomes a column info: the rbql-js span parser is modelled (Model/Translate.lean) and tied on both ports
+    import translate_corr
+    translate_corr.run_leg(res, tier, seed, {'infos', 'select'})
 
 
 def replay(res, path):
+    import translate_corr
+    r = translate_corr.replay(res, path)
+    if r is not None:
+        return r
     v = json.loads(open(path).read())
     print(json.dumps(v, indent=1, ensure_ascii=False)[:3000])
     c = {'text': v['query_py'], 'dc': 'distinct count' in v['query_py'], 'ih': v['input_header'], 'jh': v['join_header'], 'infos': v['kinds'], 'except': None, 'A': v['A'], 'B': v['B'], 'csv': True, 'pandas': False}
